@@ -83,8 +83,10 @@ class Environment(object):
 
     def run(self):
         with self.prepare_lock:
-            if self.prepare_thread:
-                self.prepare_thread.join()
+            # the starter thread clears the handle itself: read it once
+            prepare_thread = self.prepare_thread
+            if prepare_thread:
+                prepare_thread.join()
 
             if not hasattr(self, 'conn'):
                 self._run()
